@@ -142,6 +142,7 @@ def correspond(ctx):
 
 
 def oracle(ctx):
+    core.io_inventory_obligation(ctx.res, ('write',))
     res = ctx.res
     # (T1) control flow of main.rs (continue / break / return / exit / `?` / dry-run guards / error pushes): inventory regenerated
     # from the source vs the reviewed one — the loop policy the run-level models assume
